@@ -522,6 +522,14 @@ def run(tier, seed):
     rsmis = sorted(set(rsmis), key=lambda s: (len(s), s))
     family("corpus", "checks.c15:corpus_item", rsmis, 100)
     family("size-ladder", "checks.c15:corpus_item", size_ladder(), 5)
+    # text hygiene: blanks / tabs RDKit tolerates in a reaction string (leading, around the arrow, trailing)
+    mapped = ["[CH3:1][OH:2]>>[CH3:1][Cl:3]", "[CH3:1][C:2](=[O:3])[O:4][CH2:5][CH3:6]>>[CH3:1][C:2](=[O:3])[OH:4]",
+              "[cH:1]1[cH:2][cH:3][cH:4][cH:5][c:6]1[Br:7].[OH2:8]>>[cH:1]1[cH:2][cH:3][cH:4][cH:5][c:6]1[OH:8]"]
+    blanks = []
+    for m in mapped:
+        a, b = m.split(">>")
+        blanks += [" " + m, m + " ", a + " >>" + b, a + ">> " + b, a + " >> " + b, a + "\t>>" + b, "  " + a + ">>" + b + "\n"]
+    family("blanks", "checks.c15:corpus_item", blanks, 3)
     import itertools as _it
 
     pjobs = [(seq, bs) for n in (1, 2, 3) for seq in _it.product(sorted(PIPE_ROWS), repeat=n) for bs in (None, 1, 2)
